@@ -99,7 +99,7 @@ def trace_list(case, graph, pos):
         P = [v[0] for v in graph.values()]
         near = [(p[0] + 0.13, p[1] - 0.11) if pos == "GENERIC" else (p[0] + 0.25, p[1] - 0.125) for p in P]
         n = len(P) - 1
-        return [[near[min(i, n)] for i in t] for t in [(0, 2, 4), (0, 4, 1), (4, 2, 0), (0, 4), (2, 0, 3)]]
+        return [[near[min(i, n)] for i in t] for t in ps.span_idx(n)]
     obs = [al.OBS[pos][0], al.OBS[pos][2], al.OBS[pos][3]]
     out = [list(t) for T in (1, 2) for t in itertools.product(obs, repeat=T)]
     out += [[obs[1]] + list(t) for t in itertools.product(obs, repeat=2)]
